@@ -1338,11 +1338,6 @@ theorem readAndCutLines_swap_buffered {o : Opt} (h : NoLfNulLits o) (input : Byt
     readAndCutLines o.swappedAll (swap input) = (readAndCutLines o input).mapOut swap :=
   readAndCutLines_swap h input
 
-/-- old name (the statement used to need the lines to be UTF-8; it no longer does) — kept because
-    `Tuc/Audit/C11.lean` names it; use `cutLinesForwardOnly_swap` -/
-
-/-- old name, kept because `Tuc/Audit/C11.lean` names it; use `readAndCutLines_swap` -/
-
 theorem fastOptOf_swapped (o : Opt) : fastOptOf o.swapped = (fastOptOf o).map FastOpt.swapped := by
   generalize ho' : o.swapped = o'
   have h1 : o'.delimiter = o.delimiter := by subst ho'; rfl
